@@ -1,4 +1,68 @@
-import SparseSpace.Model.Combi
+import SparseSpace.Lemmas.Combi
+/-!
+# C01 — the adaptive combination scheme is always a valid inclusion–exclusion scheme
+
+Theorems about `Model/Combi` (mirror of `sparseSpACE/combiScheme.py`), for every dimension `dim ≥ 1`, every
+`0 ≤ lmin ≤ lmax` and every finite sequence of update requests on ARBITRARY level vectors.
+-/
 namespace SparseSpace.C01
-theorem placeholder : True := trivial
+open SparseSpace
+
+/-- initialisation establishes the invariant -/
+theorem inv_init (dim : Nat) (lmin lmax : Int) (hd : 1 ≤ dim) (h0 : 0 ≤ lmin) (h : lmin ≤ lmax) :
+    SchemeInv (CS.init dim lmax lmin) := SparseSpace.inv_init dim lmin lmax hd h0 h
+
+/-- one update request on an arbitrary level vector (refinable or not, any length, any entries) keeps it -/
+theorem inv_update (s : CS) (lv : LV) (h : SchemeInv s) : SchemeInv (s.update lv).1 :=
+  SparseSpace.inv_update s lv h
+
+/-- every reachable state satisfies the invariant -/
+theorem inv_reachable (dim : Nat) (lmin lmax : Int) (hd : 1 ≤ dim) (h0 : 0 ≤ lmin) (h : lmin ≤ lmax)
+    (ops : List LV) : SchemeInv (runOps (CS.init dim lmax lmin) ops) :=
+  SparseSpace.inv_runOps _ ops (inv_init dim lmin lmax hd h0 h)
+
+/-- a request on a vector that is not active changes nothing and returns `None` -/
+theorem update_not_refinable (s : CS) (lv : LV) (h : lv ∉ s.active) : s.update lv = (s, none) :=
+  SparseSpace.update_not_refinable s lv h
+
+/-- the index set is downward closed above `lmin` (full componentwise order, not only neighbours) -/
+theorem downward_closed (s : CS) (h : SchemeInv s) (l t : LV) (hl : l ∈ I s)
+    (ht : t.length = s.dim) (hmin : geAll s.lmin t) (hle : leAll t l = true) : t ∈ I s :=
+  SparseSpace.downward_closed s h l t hl ht hmin hle
+
+/-- old and active are disjoint; no active index has a forward neighbour in the index set -/
+theorem disjoint_and_no_forward (s : CS) (h : SchemeInv s) :
+    (∀ l ∈ s.active, l ∉ s.old) ∧ (∀ l ∈ s.active, ∀ d < s.dim, bump l d 1 ∉ I s) :=
+  ⟨h.disjoint, h.noFwd⟩
+
+/-- **inclusion–exclusion identity**: the coefficients of the returned grids dominating `t` sum to `[t ∈ I]` -/
+theorem coeff_identity (s : CS) (h : SchemeInv s) (t : LV) (ht : t.length = s.dim) (hmin : geAll s.lmin t) :
+    domSum s.coeffs t = if t ∈ I s then 1 else 0 :=
+  SparseSpace.coeff_identity s h t ht hmin
+
+/-- returned grids lie in the index set, have non-zero coefficient and are returned once -/
+theorem coeff_support (s : CS) (h : SchemeInv s) :
+    (∀ p ∈ s.coeffs, p.1 ∈ I s ∧ p.2 ≠ 0) ∧ (s.coeffs.map (·.1)).Nodup :=
+  SparseSpace.coeff_support s h
+
+/-- the coefficients sum to 1 -/
+theorem coeff_total (s : CS) (h : SchemeInv s) : (s.coeffs.map (·.2)).sum = 1 :=
+  SparseSpace.coeff_total s h
+
+/-- all of the above for every reachable state, in one statement -/
+theorem reachable_scheme_valid (dim : Nat) (lmin lmax : Int) (hd : 1 ≤ dim) (h0 : 0 ≤ lmin) (h : lmin ≤ lmax)
+    (ops : List LV) (t : LV) (ht : t.length = dim) (hmin : geAll lmin t) :
+    let s := runOps (CS.init dim lmax lmin) ops
+    domSum s.coeffs t = if t ∈ I s then 1 else 0 := by
+  intro s
+  have hs : SchemeInv s := inv_reachable dim lmin lmax hd h0 h ops
+  have hdim : s.dim = dim := SparseSpace.runOps_dim _ ops
+  have hlm : s.lmin = lmin := SparseSpace.runOps_lmin _ ops
+  exact coeff_identity s hs t (by rw [hdim]; exact ht) (by rw [hlm]; exact hmin)
+
+/-- non-vacuity: a concrete reachable state (dim 2, lmin 1, lmax 3, two updates) and a concrete `t` -/
+example : (runOps (CS.init 2 3 1) [[1,3],[2,2]]).active = [[3,1],[1,4],[2,3]] := by decide
+example : domSum (runOps (CS.init 2 3 1) [[1,3],[2,2]]).coeffs [1,2] = 1 := by decide
+example : domSum (runOps (CS.init 2 3 1) [[1,3],[2,2]]).coeffs [3,2] = 0 := by decide
+
 end SparseSpace.C01
